@@ -46,6 +46,8 @@ Notation api_i := (api_i fresh_ent fresh_ino umask).
 Notation copy_file_i := (copy_file_i fresh_ent fresh_ino umask).
 Notation write_reader_i := (write_reader_i fresh_ent fresh_ino umask).
 Notation perm_new := (perm_new umask).
+Notation multi_image_i := (multi_image_i fresh_ent fresh_ino umask).
+Notation import_images_i := (import_images_i fresh_ent fresh_ino umask).
 
 (* ---------- the body ---------- *)
 Lemma run_body_spec fd ofd b : forall s f,
@@ -306,6 +308,75 @@ Lemma copy_same_file_noop_proof src dst s i f :
   copy_file_i src dst s = ROk tt s.
 Proof.
   intros Hs Hd Hi. unfold copy_file_i, open_rd, stat. rewrite Hs, Hi, Hd, Hi, Pos.eqb_refl. reflexivity.
+Qed.
+
+(* ---------- several inputs: the alias check runs over the LIST of inputs ---------- *)
+Lemma reject_alias_spec_proof ins o s :
+  reject_alias ins o s = true <->
+  exists x, In x ins /\
+    (sp_ent x = sp_ent o \/
+     exists i fi fo, resolve (idir s) (sp_ent x) = Some i /\ resolve (idir s) (sp_ent o) = Some i /\
+                     inos s !! i = Some fi /\ inos s !! i = Some fo).
+Proof.
+  unfold reject_alias. rewrite existsb_exists. split.
+  - intros (x & Hin & Hal). exists x. split; [exact Hin|]. apply output_aliases_input_spec_proof. exact Hal.
+  - intros (x & Hin & Hal). exists x. split; [exact Hin|]. apply output_aliases_input_spec_proof. exact Hal.
+Qed.
+
+(* a refused alias leaves everything as it was *)
+Lemma multi_alias_refused_proof ins o b s :
+  reject_alias ins o s = true ->
+  multi_image_i ins o b s = RErr EEXIST s /\ import_images_i ins o b s = RErr EEXIST s.
+Proof. intros H. unfold Model.multi_image_i, Model.import_images_i. rewrite H. split; reflexivity. Qed.
+
+Lemma not_rejected_distinct ins o s x :
+  reject_alias ins o s = false -> In x ins -> sp_ent x <> sp_ent o.
+Proof.
+  intros Hr Hin He. assert (reject_alias ins o s = true); [|congruence].
+  apply reject_alias_spec_proof. exists x. split; [exact Hin|left; exact He].
+Qed.
+
+(* the destination of the runs below is the output name *)
+Lemma api_dest_out inF o : (forall x, inF = Some x -> sp_ent x <> sp_ent o) -> api_dest inF (Some o) = Some o.
+Proof.
+  intros H. unfold api_dest. destruct inF as [x|]; cbn [opt_sp_eqb]; [|reflexivity].
+  destruct (sp_eqb x o) eqn:E; [|reflexivity]. apply sp_eqb_eq in E. subst x. exfalso. apply (H o eq_refl). reflexivity.
+Qed.
+
+Lemma others_unchanged rd inF o b s0 s' x i f :
+  wlog s0 = [] ->
+  api_i rd inF (Some o) b s0 = ROk tt s' ->
+  api_dest inF (Some o) = Some o -> sp_ent x <> sp_ent o ->
+  idir s0 !! sp_ent x = Some (DFile i) -> inos s0 !! i = Some f ->
+  idir s' !! sp_ent x = Some (DFile i) /\ inos s' !! i = Some f.
+Proof.
+  intros Hw0 H Hd Hne Hx Hi.
+  destruct (success_publishes_proof _ _ _ _ _ _ H) as (d' & md & inew & Hd' & _ & _ & _ & Hothers).
+  rewrite Hd in Hd'. injection Hd' as <-.
+  split; [rewrite Hothers; [exact Hx|exact Hne]|].
+  destruct (preexisting_inodes_never_written_proof _ _ _ _ _ _ Hw0 H) as [_ Hkeep]. apply Hkeep. exact Hi.
+Qed.
+
+(* a run that is not refused and succeeds leaves EVERY input (whatever its position) bound to the same inode
+   with the same bytes and mode *)
+Lemma multi_inputs_unchanged_proof ins o b s0 s' :
+  wlog s0 = [] ->
+  (multi_image_i ins o b s0 = ROk tt s' \/ import_images_i ins o b s0 = ROk tt s') ->
+  forall x i f, In x ins -> idir s0 !! sp_ent x = Some (DFile i) -> inos s0 !! i = Some f ->
+  idir s' !! sp_ent x = Some (DFile i) /\ inos s' !! i = Some f.
+Proof.
+  intros Hw0 Hrun x i f Hin Hx Hi.
+  unfold Model.multi_image_i, Model.import_images_i in Hrun.
+  destruct (reject_alias ins o s0) eqn:Hr; [destruct Hrun as [Hrun|Hrun]; discriminate Hrun|].
+  pose proof (not_rejected_distinct ins o s0 x Hr Hin) as Hne.
+  destruct Hrun as [Hrun|Hrun].
+  - eapply others_unchanged; eauto. apply api_dest_out. intros h Hh.
+    destruct ins as [|h' t]; [discriminate Hh|]. cbn in Hh. injection Hh as <-.
+    apply (not_rejected_distinct _ _ _ _ Hr). left. reflexivity.
+  - destruct (open_rd o s0) as [j sj|e sj].
+    + eapply others_unchanged; eauto. unfold api_dest. cbn [opt_sp_eqb].
+      replace (sp_eqb o o) with true; [reflexivity|]. unfold sp_eqb. rewrite Pos.eqb_refl, N.eqb_refl. reflexivity.
+    + eapply others_unchanged; eauto.
 Qed.
 
 (* pdfcpu.WriteReader / WriteContext's file path (createStagedFile + finishStagedFile): on Ok the name is
